@@ -261,3 +261,17 @@ PROPS["C06"] = dict(
                                  "spends from the reserved imported-keys account are not generated (returned unsigned by design)"],
     units=[dict(name="eligible", run="^TestC06EligibleInputs$", quick=500, thorough=2000, shards_quick=2, shards_thorough=16, timeout=1500)],
 )
+
+PROPS["C20"] = dict(
+    pkg="c20", level="exploration",
+    rule=("a funded wallet (confirmed and unconfirmed coins on four address types) performs 2-6 steps (14 thorough) of: broadcast attempt (SendOutputs, or CreateSimpleTx + PublishTransaction; sometimes "
+          "explicitly chained on an unconfirmed output of an earlier send) with a drawn backend answer {accepted, already-in-mempool, already-known, already-confirmed, insufficient-fee, "
+          "min-fee-not-met, missing-inputs, other rejection, address-subscription failure}; mine; resynchronise (stop, optionally mine while down, backend keeps or loses its mempool and may refuse one "
+          "re-offered transaction, restart). Snapshot (balance 0/1, spendable set, unconfirmed hashes, leases) before each attempt: error returned => identical snapshot afterwards and the "
+          "transaction unknown; accepted / already-in-mempool => recorded exactly once, inputs no longer spendable, balances equal the harness ledger; after every resynchronisation the "
+          "backend's call log must show every still-unconfirmed transaction offered again, each after its unconfirmed parents (bounded wait of 20 s on the call log only), a transaction refused "
+          "on re-broadcast and everything spending it forgotten, balances equal to the ledger. Non-trivial = a failing attempt while other unconfirmed transactions existed, or a re-broadcast after restart."),
+    assumptions=_WALLET_ASSUME + ["for already-known / already-confirmed answers the statement is silent about the store: only internal consistency is required",
+                                 "the re-broadcast runs in a goroutine the wallet spawns; the harness waits on the backend call log (20 s bound that only matters when offers are missing)"],
+    units=[dict(name="broadcast", run="^TestC20Broadcast$", quick=600, thorough=2500, shards_quick=2, shards_thorough=16, timeout=1500)],
+)
